@@ -7,6 +7,12 @@ from ..settings import Order, Sign
 @dataclass
 class NodeList:
     nodes: List     = field(default_factory = list)  # list of nodes
+    cursor: int     = -1                             # index of the node defined or modified last
+    
+    def current(self):
+        """ Node that following property lines belong to
+        """
+        return self.nodes[self.cursor]
     
     def __len__(self):
         return len(self.nodes)
